@@ -84,6 +84,51 @@ CLAIMED = {
             "programs (constant scoping, redeclaration, far branches) is decided on an enumerated grid (complete in "
             "the thorough tier) against an independent re-implementation of the documented rules.",
             "trusted: Model/Preproc.v (differential on the grid), Spec/Signature.v, the oracle in tools/props/C09.py"),
+    "C11": ("Coq theorems over the hand models of the interpreter loop (Model/Run.v) and of Debugger.next / real_ops / "
+            "finished and the next/step/continue handlers (Model/Debugger.v), executing the operation semantics "
+            "regenerated from hera/op.py: executing the real operations of one source operation in list order is "
+            "exactly that many iterations of the interpreter's fetch-execute loop (slice_runs), and by induction over "
+            "any list of next / next n / step / continue commands that reaches the end, the debugger's machine is a "
+            "state of the interpreter's run from the same initial machine and, being finished, its final one: "
+            "registers, flags, memory, pc, halt status, call stack, output and warnings. The structural hypothesis "
+            "(only the last operation of an expansion branches) is proved per class in C12 and evaluated in Coq on "
+            "every program the check loads. Models tied by session correspondence (real Shell.handle_command vs "
+            "Model/Session after every command); implementation-level oracle: real debugger vs an independent "
+            "source-level trace and vs VirtualMachine.run under --big-stack/--init/--warn-return-off mixes.",
+            "trusted: Model/Run.v, Model/Debugger.v, Model/Session.v (hand models, differential); settings plumbing "
+            "is covered by the correspondence and the oracle, not by the theorem"),
+    "C12": ("Coq theorems: in the expansion convert() (regenerated) gives for any source operation, every real "
+            "operation but the last is SETLO/SETHI/FON/FOFF; the operations `next` executes are exactly the remaining "
+            "real operations of the current source operation (all share its identity, the following one does not); "
+            "`next` off a CALL executes exactly that slice; `next n` unfolds to n `next`s stopping only at the end; "
+            "`continue` takes at least one source-operation step and stops at the first state that is finished or on "
+            "a breakpoint, no earlier; `next` on a CALL stops at the first state whose call depth is back, or that is "
+            "on a breakpoint or finished, no earlier (nested and recursive calls included). Session correspondence as "
+            "C11; oracle: stop points and the line the shell shows vs the independent source-level trace.",
+            "trusted: Model/Debugger.v, Model/Session.v; op.original identity is modelled by an index supplied by the "
+            "harness; location resolution and print_current_op are covered by the oracle only"),
+    "C13": ("Coq theorems at two levels. Object level, on tables regenerated from vm.py / debugger.py / shell.py: "
+            "every machine attribute holding a mutable container is duplicated by VirtualMachine.copy(), "
+            "Debugger.save() duplicates the machine and the breakpoint table, the only other attribute commands "
+            "change is the immutable call counter, and exactly the eleven state-changing handlers are @mutates "
+            "(undo is not). Value level, on Model/Session.v: after any state-changing command undo returns the "
+            "whole previous session (machine, breakpoints, call depth, remaining history); n undos after n "
+            "commands return to the initial session; undo with empty history is the identity; read-only commands "
+            "change nothing; restart yields exactly the freshly started machine (reset + data statements), keeps the "
+            "breakpoints and clears the call depth. Session correspondence compares every saved snapshot; oracle on "
+            "the real shell: command+undo vs before (all snapshots, `info` text), undo to the start, restart vs fresh.",
+            "trusted: Model/Debugger.v, Model/Session.v; nested containers inside attributes would escape the "
+            "object-level tables (none exist: ints and tuples only)"),
+    "C14": ("PARTIAL proof. Coq theorems for the expression language: whatever the Pratt parser (hand model of "
+            "miniparser.py, precedences regenerated from source) accepts at precedence p is a sum / product / unary "
+            "expression of the textbook stratified left-associative grammar with exactly the tree that grammar assigns; "
+            "the evaluator (hand model of Shell.evaluate_node) returns v iff the expression means v in ordinary integer "
+            "arithmetic with every literal and intermediate result in -32768..65535 and no zero divisor, and reports an "
+            "error iff it has no such meaning. NOT theorems: that no command line makes the shell raise or hang "
+            "(decided by the survival oracle over all commands, abbreviations, operand counts and arbitrary text in "
+            "start/middle/finished/pc-outside states, and by the session correspondence) and parser completeness "
+            "(rendering oracle: parse(render t) = t, print :d vs independent arithmetic).",
+            "trusted: Model/MiniParser.v, Spec/ExprGrammar.v, Spec/ExprSpec.v, the real lexer (tokens handed to the model)"),
 }
 
 checks = []
